@@ -6,6 +6,9 @@
 #include <stdint.h>
 #include <stddef.h>
 void* malloc(size_t); void free(void*); void* memset(void*, int, size_t);
+#ifdef VX_NATIVE_SELFTEST
+#include "native/cprover_shim.h"
+#endif
 #include "vx_runtime.h"
 
 #pragma CPROVER check push
@@ -16,12 +19,16 @@ void* malloc(size_t); void free(void*); void* memset(void*, int, size_t);
 #pragma CPROVER check disable "conversion"
 
 /* ---- harness primitives ---- */
+#ifndef VX_NATIVE_SELFTEST
 int64_t nondet_long(void); _Bool nondet_bool(void); uint8_t nondet_uchar(void); double nondet_double(void); int nondet_int(void);
 int64_t in_long(int k) { int64_t v = nondet_long(); __CPROVER_input("in_long", k, v); return v; }
 _Bool in_bool(int k) { _Bool v = nondet_bool(); __CPROVER_input("in_bool", k, v); return v; }
 uint8_t in_uchar(int k) { uint8_t v = nondet_uchar(); __CPROVER_input("in_uchar", k, v); return v; }
 double in_double(int k) { double v = nondet_double(); __CPROVER_input("in_double", k, v); return v; }
 int in_int(int k) { int v = nondet_int(); __CPROVER_input("in_int", k, v); return v; }
+#else
+int64_t nondet_long(void); _Bool nondet_bool(void); uint8_t nondet_uchar(void); double nondet_double(void); int nondet_int(void);
+#endif
 int vx_kf_mode[256];   /* 0: ignore, 1: region excluded, 2: region assumed */
 void verif_known(int id, _Bool in_region) {
   if (vx_kf_mode[id] == 1) __CPROVER_assume(!in_region);
@@ -395,6 +402,7 @@ void _ZNSt8__detail15_List_node_base7_M_hookEPS0_(void* self, void* pos) { struc
 void _ZNSt8__detail15_List_node_base9_M_unhookEv(void* self) { struct vx_lnode* n = self; n->prev->next = n->next; n->next->prev = n->prev; }
 
 /* ---- libc environment ---- */
+#ifndef VX_NATIVE_SELFTEST
 int dup(int fd) { return fd + 100; }
 static char vx_file[8];
 void* stdout = vx_file; void* stderr = vx_file; void* stdin = vx_file;
@@ -406,6 +414,7 @@ int fputs(void* s, void* f) { return 0; }
 int fputc(int c, void* f) { return c; }
 int isatty(int fd) { return 0; }
 int getpid(void) { return nondet_int(); }
+#endif
 static int vx_errno;
 int* __errno_location(void) { return &vx_errno; }
 int toupper(int c) { return (c >= 'a' && c <= 'z') ? c - 32 : c; }
@@ -443,10 +452,12 @@ int vx_vsnprintf_long(char* out, uint64_t n, const char* f, va_list ap) {
   if (n) out[k < n ? k : n - 1] = 0;
   return (int)k;
 }
+#ifndef VX_NATIVE_SELFTEST
 int snprintf(void* buf, uint64_t n, void* fmt, ...) { va_list ap; va_start(ap, fmt); int r = vx_vsnprintf_long((char*)buf, n, (const char*)fmt, ap); va_end(ap); return r; }
 int fprintf(void* f, void* fmt, ...) { return 0; }
 uint64_t fwrite(void* p, uint64_t s, uint64_t n, void* f) { return n; }
 
+#endif
 /* bloc::Error::what() (inline in exception.h) when a harness cuts error-text formatting (--stub):
  * "%s" messages (user / external errors) yield their argument, every other message a fixed text.
  * Layout of bloc::Error: vptr, const char* _message, std::string _arg. */
